@@ -134,16 +134,7 @@ def run(ctx):
               where(task), key="accept_uni-task|forwards=StreamCreation<-UnknownStream")
 
     ctx.rule("C13-R4", "unknown settings ignored; reserved and duplicate settings rejected; unknown capsules / non-DATA session frames skipped")
-    f = A.fn("wtransport_proto::settings::Settings::with_frame")
-    rows = [
-        {"name": "end of payload->Ok", "atoms": [r"^BufferReader::capacity\(.*\) <= 0$"], "leaf": r"^return Result::Ok\(Settings::new\(\)\)$"},
-        {"name": "known, first->stored", "atoms": [r" is Vacant$"], "events": [r"^VacantEntry::insert\("], "leaf": r"^continue$"},
-        {"name": "known, duplicate->H3_SETTINGS_ERROR", "atoms": [r" is Occupied$"], "leaf": r"^return Result::Err\(ErrorCode::Settings\)$"},
-        {"name": "reserved->H3_SETTINGS_ERROR", "atoms": [r" is ReservedSetting$"], "leaf": r"^return Result::Err\(ErrorCode::Settings\)$"},
-        {"name": "unknown->ignored", "atoms": [r" is UnknownSetting$"], "not_events": [r"insert\("], "leaf": r"^continue$"},
-        {"name": "truncated->H3_FRAME_ERROR", "atoms": [r"get_varint\(.*\) is None$"], "leaf": r"^return Err\(from\(ErrorCode::Frame\)\)$"},
-    ]
-    match_table(ctx, "C13-R4", f, walk(f), rows, "Settings::with_frame")
+    shared.settings_with_frame_table(ctx, "C13-R4")
     f = A.fn("wtransport_proto::settings::SettingId::is_reserved")
     got = sorted(int(re.search(r"== (\d+)$", a).group(1)) for p in nonpanic(walk(f)) for a in path_sig(p)[0] if path_sig(p)[1] == "return 1" and re.search(r"== (\d+)$", a))
     ctx.check("C13-R4", "SettingId::is_reserved", got == SPEC["settings_reserved"], "reserved (HTTP/2) setting ids are %s, RFC 9114 §7.2.4.1 lists %s" % (got, SPEC["settings_reserved"]), where(f))
